@@ -289,8 +289,13 @@ inductive Where
   | head | block | both
   deriving Repr, DecidableEq
 
+def Db.blockSelect (db : Db) (m : Matcher) (hints : Option Hints) : List Labels :=
+  match db.block with
+  | some b => b.select m hints
+  | none => []
+
 def Db.select (db : Db) (w : Where) (m : Matcher) (hints : Option Hints) : Except SelErr (List Labels) :=
-  let blk := match db.block with | some b => b.select m hints | none => []
+  let blk := db.blockSelect m hints
   match w with
   | .block => .ok blk
   | .head => db.head.select m hints
